@@ -218,7 +218,14 @@ fn write_layer(dir: &Path, l: &LayerSpec) {
     for f in &l.files {
         contents.push_str(&format!("<key>{}</key><string>{}</string>\n", f.key, f.fname));
         if f.bad != 3 {
-            std::fs::write(ldir.join(&f.fname), glif_text(f)).unwrap();
+            let target = ldir.join(&f.fname);
+            if f.fname.contains('/') {
+                // `../<layer>/f` names the other layer's file (same content by construction), `sub/f` needs its directory
+                if let Some(parent) = target.parent() {
+                    let _ = std::fs::create_dir_all(parent);
+                }
+            }
+            std::fs::write(target, glif_text(f)).unwrap();
         }
     }
     contents.push_str("</dict></plist>\n");
@@ -697,6 +704,10 @@ pub struct Shape {
     pub default_pos: usize,
     /// number of API operations between load and save
     pub ops: usize,
+    /// 0 = plain file names; otherwise: all layers hold all names, a glyph has the SAME file name in every layer, and some
+    /// `contents.plist` values carry a directory component (`../<other layer>/f`, `./f`, `sub/f`) at the first / middle /
+    /// last position of a layer (which one: `dirs % 3`); `dirs == 6` also uses `sub/` (then the save fails, in both builds)
+    pub dirs: u8,
 }
 
 /// two legal glyph names with the same `DefaultHasher::new()` (SipHash-1-3, zero key) value 5587adf19e07eef0:
@@ -727,9 +738,9 @@ pub fn gen_tree(rng: &mut Rng, sh: &Shape) -> Vec<LayerSpec> {
         let mut keys: Vec<String> = if li == 0 {
             names.clone()
         } else {
-            let keep = if sh.uneven { *rng.pick(&[1usize, 3, 10, 30, 100]) } else { 40 + rng.below(61) };
+            let keep = if sh.dirs > 0 { 100 } else if sh.uneven { *rng.pick(&[1usize, 3, 10, 30, 100]) } else { 40 + rng.below(61) };
             let mut ks: Vec<String> = names.iter().filter(|_| rng.below(100) < keep).cloned().collect();
-            for j in 0..rng.below(4) {
+            for j in 0..(if sh.dirs > 0 { 0 } else { rng.below(4) }) {
                 ks.push(format!("only{}.{}", li, j));
             }
             ks
@@ -781,7 +792,12 @@ pub fn gen_tree(rng: &mut Rng, sh: &Shape) -> Vec<LayerSpec> {
             };
             fileno += 1;
             // file names that differ in case only would collide on some systems; keep them plain
-            let fname = format!("g{:05}_.glif", fileno);
+            let fname = if sh.dirs > 0 {
+                // the same file name for a glyph in every layer
+                format!("k{:05}_.glif", names.iter().position(|n| *n == key).unwrap_or(fileno))
+            } else {
+                format!("g{:05}_.glif", fileno)
+            };
             files.push(FileSpec { key, fname, attr, seed: rng.below(1_000_000) as u64, bad: 0, comps });
         }
         if sh.bad && !files.is_empty() && (li == sh.layers - 1 || rng.chance(1, 2)) {
@@ -806,6 +822,51 @@ pub fn gen_tree(rng: &mut Rng, sh: &Shape) -> Vec<LayerSpec> {
             }
         }
         layers.push(LayerSpec { name: lname, dir, files });
+    }
+    if sh.dirs > 0 {
+        // directory components in contents.plist values (accepted on load: recorded C09 finding, shared by both builds)
+        let nl = layers.len();
+        for li in 0..nl {
+            let n = layers[li].files.len();
+            if n == 0 {
+                continue;
+            }
+            let pos = match (sh.dirs as usize + li) % 3 {
+                0 => 0,
+                1 => n / 2,
+                _ => n - 1,
+            };
+            let other = if li == 0 { 1 } else { 0 };
+            let kind = if nl < 2 { 1 } else { li % 3 };
+            match kind {
+                // `../<other layer>/<same file name>`: the entry refers to the other layer's file of that glyph
+                0 | 2 if nl >= 2 && (li > 0 || sh.dirs % 2 == 0) => {
+                    let key = layers[li].files[pos].key.clone();
+                    if let Some(src) = layers[other].files.iter().find(|f| f.key == key && !f.fname.contains('/')).cloned() {
+                        let odir = layers[other].dir.clone();
+                        let f = &mut layers[li].files[pos];
+                        f.fname = format!("../{}/{}", odir, src.fname);
+                        f.attr = src.attr;
+                        f.seed = src.seed;
+                        f.comps = src.comps;
+                        f.bad = src.bad;
+                    }
+                }
+                _ => {
+                    let f = &mut layers[li].files[pos];
+                    if !f.fname.contains('/') {
+                        f.fname = format!("./{}", f.fname);
+                    }
+                }
+            }
+            if sh.dirs == 6 && li == nl - 1 && n >= 2 {
+                let p2 = if pos == 0 { n - 1 } else { 0 };
+                let f = &mut layers[li].files[p2];
+                if !f.fname.contains('/') {
+                    f.fname = format!("sub/{}", f.fname);
+                }
+            }
+        }
     }
     if sh.default_pos > 0 && layers.len() > 1 {
         let d = layers.remove(0);
@@ -917,7 +978,7 @@ pub fn gen_prelude(rng: &mut Rng, main: &[LayerSpec], extra: &[String]) -> Vec<L
 
 /// a UFO 2 with unprefixed kerning groups: (layers, G token, K token, names for the other font)
 pub fn gen_v2(rng: &mut Rng) -> (Vec<LayerSpec>, String, String, Vec<String>) {
-    let sh = Shape { glyphs: 8 + rng.below(50), layers: 1, bad: false, dup: false, coll: 0, uneven: false, default_pos: 0, ops: 0 };
+    let sh = Shape { glyphs: 8 + rng.below(50), layers: 1, bad: false, dup: false, coll: 0, uneven: false, default_pos: 0, ops: 0, dirs: 0 };
     let mut layers = gen_tree(rng, &sh);
     layers[0].name = "public.default".to_string();
     let keys: Vec<String> = layers[0].files.iter().map(|f| f.key.clone()).collect();
@@ -1048,6 +1109,7 @@ pub fn gen(tier: &str, seed: u64, out: &mut dyn Write) {
             uneven: many || rng.chance(1, 4),
             default_pos: if many || rng.chance(1, 3) { rng.below(layers) } else { 0 },
             ops: if !dup && !bad && t % 2 == 0 { 1 + rng.below(if t % 4 == 0 { 6 } else { 30 }) } else { 0 },
+            dirs: 0,
         };
         let layers = gen_tree(&mut rng, &sh);
         let ops = gen_ops(&mut rng, &layers, sh.ops);
@@ -1062,7 +1124,23 @@ pub fn gen(tier: &str, seed: u64, out: &mut dyn Write) {
             1 => n / 2,
             _ => 1,
         };
-        let sh = Shape { glyphs: 3 + rng.below(10), layers: *n, bad: false, dup: false, coll: 0, uneven: true, default_pos: pos, ops: 0 };
+        let sh = Shape { glyphs: 3 + rng.below(10), layers: *n, bad: false, dup: false, coll: 0, uneven: true, default_pos: pos, ops: 0, dirs: 0 };
+        let layers = gen_tree(&mut rng, &sh);
+        emit(out, &scratch, rng.next() % 1_000_000, reps, &layers, "");
+    }
+    // directory components in contents.plist values, layers sharing file names, layer sizes around rayon's splitting thresholds
+    for (i, n) in [1usize, 2, 63, 64, 65, 257].iter().enumerate() {
+        let sh = Shape {
+            glyphs: *n,
+            layers: 2 + (i % 2),
+            bad: false,
+            dup: false,
+            coll: 0,
+            uneven: false,
+            default_pos: if i % 3 == 2 { 1 } else { 0 },
+            ops: 0,
+            dirs: (i + 1) as u8,
+        };
         let layers = gen_tree(&mut rng, &sh);
         emit(out, &scratch, rng.next() % 1_000_000, reps, &layers, "");
     }
